@@ -121,6 +121,30 @@ type editor struct {
 	rng   *rand.Rand
 	roots roots
 	log   func(format string, a ...any)
+	// rootAttack makes the round end with a deletion, type change or emptying
+	// of one root (C11's subject; only counted here) and disables the guard.
+	rootAttack bool
+}
+
+// attackRoot deletes a root, replaces it by a file, or empties it.
+func (e *editor) attackRoot() Applied {
+	side := []string{"alpha", "beta"}[e.rng.Intn(2)]
+	root := e.roots.of(side)
+	switch e.rng.Intn(3) {
+	case 0:
+		os.RemoveAll(root)
+		return Applied{Side: side, Op: "root-delete", Path: ""}
+	case 1:
+		os.RemoveAll(root)
+		os.WriteFile(root, fsx.UniqueToken(e.rng, 50), 0o644)
+		return Applied{Side: side, Op: "root-retype-file", Path: ""}
+	default:
+		ents, _ := os.ReadDir(root)
+		for _, ent := range ents {
+			os.RemoveAll(filepath.Join(root, ent.Name()))
+		}
+		return Applied{Side: side, Op: "root-empty", Path: ""}
+	}
 }
 
 // round applies n random edits and returns what was done. Snapshots are
@@ -138,6 +162,11 @@ func (e *editor) round(n int) ([]Applied, error) {
 				done = append(done, x)
 			}
 		}
+	}
+	if e.rootAttack {
+		a := e.attackRoot()
+		e.log("  edit %s", a)
+		return append(done, a), nil
 	}
 	// Never leave a root empty (one-sided emptying halts the session, which is
 	// another property's subject) and never remove a root.
